@@ -416,6 +416,62 @@ def _tree_item(expr: str) -> dict:
 
 
 # ------------------------------------------------------------------------------------------------ entry point
+def shared_schema_history(cls_name: str) -> dict:
+    """ONE schema instance per class (as the shipped evaluators / providers hold one) round-trips ALL instances of the
+    class one after the other (many share their id / their keys while differing elsewhere), the loaded objects being
+    edited in place in between: every load(dump(x)) has to equal ITS x.  -> first failure or None"""
+    inst = _instances()[cls_name]
+    schema = _classes()[type(inst[0])]()
+    n = 0
+    for pos, x in enumerate(inst):
+        n += 1
+        try:
+            back = schema.load(schema.dump(x))
+        except Exception as exc:  # noqa
+            return {"evaluations": n, "failing": {"class": cls_name, "position": pos, "object": pyexpr(x),
+                                                  "problem": f"raised {type(exc).__name__}: {str(exc)[:200]}"}}
+        if not (back == x and type(back) is type(x)):
+            return {"evaluations": n, "failing": {"class": cls_name, "position": pos, "object": pyexpr(x),
+                                                  "problem": f"got {back!r}"}}
+        for attr in ("packages", "hints", "requirement_constraints", "format_constraints", "hint_keys",
+                     "requirement_constraint_keys"):
+            v = getattr(back, attr, None)  # the caller owns what it loaded
+            if isinstance(v, dict):
+                v["4711"] = None
+            elif isinstance(v, list):
+                v.append("4711")
+    return {"evaluations": n, "failing": None}
+
+
+def _run_shared_schema_histories(ctx) -> None:
+    from bounded.common import in_fresh_interpreter
+    t0 = time.time()
+    total, names = 0, list(_instances())
+    for cls_name in names:
+        r = shared_schema_history(cls_name)
+        total += r["evaluations"]
+        f = r["failing"]
+        if not f:
+            continue
+        again = in_fresh_interpreter("bounded.c19", "shared_schema_history", [cls_name])
+        if not again or not again["failing"]:
+            ctx.note(f"C19 shared-schema history of {cls_name}: failure did not reproduce in a new interpreter (not reported)")
+            continue
+        g = again["failing"]
+        alone = roundtrip_problems(_instances()[cls_name][g["position"]])
+        ctx.violation(obligation=f"bounded/one-schema-instance/{cls_name}",
+                      message=(f"{cls_name}: with ONE schema instance, load(dump(x)) of instance #{g['position']} {g['object']} "
+                               f"after the round trips of the {g['position']} instances before it: {g['problem']}"
+                               + ("" if alone else " (the same round trip on a new schema instance is fine: history-dependent)"))[:1500],
+                      witness=g, replayed=True, signature=f"one-schema|{cls_name}|{g['position']}",
+                      replay_code=f"# in a NEW interpreter:\nfrom bounded import c19\nprint(c19.shared_schema_history({cls_name!r}))")
+    ctx.bounded("one schema instance per class round-trips all instances one after the other (loaded objects edited in between)",
+                evaluations=total, distinct_nontrivial=len(names),
+                rule="distinct classes; within a class consecutive instances share id / keys and differ elsewhere",
+                samples=names[:3], exhaustive=True, bound="the instance lists of part (1), in order, one schema object each",
+                seconds=time.time() - t0)
+
+
 def run(ctx, tier: str, seed: int) -> None:
     ctx.trust("A-MARSHMALLOW (marshmallow interprets the declarative schemas as documented)", "A-LARK-TREE (Tree/Token equality)")
     ctx.explanation = ("bounded: JSON round trips over small field domains of the six model classes, over objects produced by "
@@ -439,6 +495,7 @@ def run(ctx, tier: str, seed: int) -> None:
                               "witness": {"object": pyexpr(x), "problem": what}, "signature": pyexpr(x),
                               "replay": _replay_model(x)})
     _report(ctx, fails, "instances")
+    _run_shared_schema_histories(ctx)
     ctx.bounded("load(dump(x)) == x and loads(dumps(x)) == x for every instance over small field domains of the six model classes",
                 evaluations=total, distinct_nontrivial=len(nontrivial),
                 rule="distinct instances with at least one Optional at None, a non-ASCII string, a UUID or a non-empty container",
